@@ -36,6 +36,10 @@ def _classify(op, a, b):
         return ("library-" + va.split(" ")[0], notes)
     if m.group(1) != "0":
         return ("file-outside-the-domain", m.group(2))
+    if "modelpos=" in m.group(2):
+        # the Lean MODEL of the library's position rule (rows / cells without r) differs from the spec on a
+        # file the spec accepts: the model is wrong about the code, or C03_positions' hypotheses are too narrow
+        return ("model-positions-differ-from-spec", m.group(2).split("modelpos=", 1)[1])
     vb = m.group(3)
     ha, sa = _split_view(va)
     hb, sb = _split_view(vb)
@@ -129,37 +133,58 @@ PROP = {
     "driver_timeout": 3000,
     "level_text": "Translation validation per file by an independent decoder executed in Lean, plus theorems for the cell-level reading rules. Every part of every "
                   "file (53 corpus files in the quick tier, all 55 in the thorough tier; 300 / 5000 packages emitted by a seed-driven xlsx grammar that writes the XML itself; "
-                  "5 hand-written boundary packages) is lexed by an XML 1.0 reader and decoded by an OPC/SpreadsheetML decoder written from the standards "
+                  "9 hand-written boundary packages) is lexed by an XML 1.0 reader and decoded by an OPC/SpreadsheetML decoder written from the standards "
                   "(Umya.Spec.Xml, Umya.Spec.Sml, Umya.Spec.SharedFormula, Umya.Spec.Double): cells with value / kind / formula incl. expanded shared formulas, numbers as "
                   "exact binary64 bit patterns, style facts through cellXfs (numFmt id / custom code, bold, fill pattern and foreground colour), columns, rows, hyperlinks "
                   "through the rels part, tables, defined names, sheet list. Its view must equal the view printed from the workbook the LIBRARY loaded (read_reader + public getters). "
                   "Theorems (all inputs of the stated shape, no size bounds): C03_attr / C03_text (the library's unescaping returns the XML value whenever the XML reader accepts "
                   "the text, literal line ends and attribute white space included), C03_cols (col span expansion), C03_shared_formula (a child's reference tokens are translated exactly as the spec translator prints "
-                  "them, every offset incl. negative ones, from C09_translate_ref), C03_value_number / C03_value_error, C03_cell_partial.",
-    "level_note": "The file-level agreement is validated per file, NOT proved for all valid files: there is no Lean model of the whole reader. The model of the cell reader "
-                  "(Umya/Model/Reader.lean) is tied to the code indirectly: the driver runs it next to the spec on every <c> of every file (reported as model-vs-spec-cells in the "
-                  "informational part of the reply) and the spec is compared with the implementation by the oracle. Trusted: the Lean decoder (spec, ~900 lines, executed, not "
+                  "them, every offset incl. negative ones, from C09_translate_ref), C03_value_number / C03_value_error, "
+                  "C03_cell (for EVERY cell element of the valid grammar `validCell` and every shared-string table the model of Cell::set_attributes does not panic and shows the value text, kind, "
+                  "formula, shared-formula group, style index and reference of Spec.decodeCell, for every cell type: t absent / n, s, str, b with 1/0/true/false, e, inlineStr with plain t, rich runs and "
+                  "phonetic runs; one lemma per type C03_cell_number / _shared_string / _str / _bool / _error / _inline_string, C03_string_item: the library's string item = the standard's, C03_cell_kind), "
+                  "C03_positions (for every list of rows and cells, r present or omitted in any mixture, the model of the position rule of fix 8281a0c puts every row and cell where the spec's rowNumbers / fillRefs do).",
+    "level_note": "The file-level agreement is validated per file, NOT proved for all valid files: there is no Lean model of the whole reader. The model of the cell reader and of the position rule "
+                  "(Umya/Model/Reader.lean: readCell, stringItem, sheetPositions) is tied to the code indirectly: the driver runs it next to the spec on every <c> and every <sheetData> of every file; "
+                  "cells are reported as model-vs-spec-cells in the informational part of the reply, a POSITION difference on a file the spec accepts is put into the compared part (modelpos=) and fails the check "
+                  "(class model-positions-differ-from-spec); the spec is compared with the implementation by the oracle, so on a passing file model, spec and implementation agree pairwise on the positions. "
+                  "Trusted: the Lean decoder (spec, ~900 lines, executed, not "
                   "verified against the standards' text), the zip crate, the harness view function and generator, the classifier in this file. Below the abstraction (not compared): "
-                  "empty string vs no value, blank hyperlink-anchor cells, default-width columns, optional apostrophes around plain sheet names in defined names, order of tables.",
-    "expect_theorems": ["C03_channels_match_source", "C03_attr", "C03_attr_get", "C03_text", "C03_cols", "C03_shared_formula", "C03_value_number", "C03_value_error", "C03_cell_partial",
-                        "C03_attr_literal_whitespace", "C03_text_literal_cr", "C03_cell_edge_blanks_fails"],
+                  "empty string vs no value (C03_cell compares kinds through shownKind for the same reason), blank hyperlink-anchor cells, default-width columns, optional apostrophes around plain sheet names in defined names, order of tables.",
+    "expect_theorems": ["C03_channels_match_source", "C03_attr", "C03_attr_get", "C03_text", "C03_cols", "C03_shared_formula", "C03_value_number", "C03_value_error",
+                        "C03_string_item", "C03_cell_number", "C03_cell_shared_string", "C03_cell_str", "C03_cell_bool", "C03_cell_error", "C03_cell_inline_string",
+                        "C03_cell", "C03_cell_kind", "C03_positions",
+                        "C03_attr_literal_whitespace", "C03_text_literal_cr", "C03_cell_edge_blanks_fails", "C03_cell_t_and_runs_fails"],
     "rule": "case = one xlsx file: `c03 reset file <corpus file>`, `c03 reset gen <seed>` (grammar derivation from the seed; productions listed at the top of harness/src/c03.rs and "
             "counted as prod.* in the distribution: cell encodings t=absent/n/s/str/inlineStr/b/e with and without formula, number forms, shared/inline strings plain/rich/phonetic/"
             "xml:space/looks-typed, entities and character references in text and attributes, shared-formula blocks with the master anywhere in its ref and children right/below/"
             "left-below, array formulas, optional r/spans/s, row attributes, col spans incl. max=16384, 1-4 sheets with escaped names, hidden sheets, arbitrary part names and "
             "relationship ids, defined names global/local/constant/multi-area, hyperlinks external/location/both/tooltip/display, one table, a styles part with 1-7 xfs), "
-            "`c03 reset edge <k>` (hand-written boundary packages). Every part is one request, the final request compares the views. Only the case headers of a replay are acted on. "
+            "`c03 reset edge <k>` (9 hand-written boundary packages: shared-formula blocks at the grid edge, start/end-tag forms, CDATA / comments, literal white space in attributes, t=\"b\" with true / false, a string item with t and runs, an empty <si/>, blanks at the ends of texts). Every part is one request, the final request compares the views. Only the case headers of a replay are acted on. "
             "non-trivial = every part / decode request; distinct = distinct request line",
     "trusted_base": TB_COMMON + ["independent decoder Umya/Spec/XmlLex.lean + Sml.lean + SharedFormula.lean + Double.lean (executed, not verified against the standards' text)",
                                  "zip crate", "harness generator and view (harness/src/c03.rs)", "difference classifier (tools/props.d/C03.py)"],
     "assumptions": ["C03_attr / C03_text hold for every raw text the XML reader accepts (since fix ddd0f34 no hypothesis on literal white space)",
-                    "cell elements of `validCell`: unprefixed element names, at most one f / v, texts without blanks at their ends, `<v>` fitting the cell type",
+                    "C03_cell, hypothesis validCell (explicit, decidable; Thm/C03.lean documents each conjunct): t absent or one of n / s / str / b / e / inlineStr; at most one f, one v, one is; "
+                    "s and the si of f unsigned decimals that fit usize / u32 (the library unwraps the parse); a t=\"shared\" formula carries si (the library would use group 0); f and v hold character data only "
+                    "(one text node; comments / CDATA inside are known finding edge 4); v without blanks at its ends unless t=\"str\" (the sheet reader trims) and fitting the type: s = index of an item of the table "
+                    "(out-of-range / non-numeric v: the library panics on unwrap, the spec reports the file as outside the domain; both outside validCell), b one of 1 0 true false, e one of the seven error codes, "
+                    "number = non-empty text Rust's f64 parser accepts and guess_typed_data does not take for TRUE / FALSE / an error code; a string item (si / is) is EITHER one plain t OR runs with at most one t each, "
+                    "every t character data only and, in the worksheet part, blanks at its ends only with xml:space=\"preserve\"",
+                    "C03_cell compares the kind through shownKind (text kind with an empty text = no value); C03_cell_kind: plain equality whenever the value is not empty",
+                    "C03_positions, hypothesis validPositions: a row's r an unsigned decimal that fits u32, a cell's r 1-3 upper-case letters + decimal row that fits u32 (the library's regex; lower-case or $ forms are outside), "
+                    "the positions the spec assigns inside the grid (rows <= 1048576, columns <= 16384; beyond ZZZ the library panics); nothing is assumed about order",
+                    "the model reads the element tree: `<v/>` `<t/>` `<is/>` `<r/>` (Empty events, ignored by the library) are not distinguished from the start/end-tag forms; elements are matched by local name "
+                    "(the library matches unprefixed names only); character data directly inside <c> is not modelled; usize is 64 bits",
                     "Rust's f64 parser is correctly rounded (the spec side computes the nearest binary64 exactly with integer arithmetic)"],
     "partial_clauses": ["whole-file agreement is validated per file (translation validation), not proved",
-                        "C03_cell_partial: kind / value of cells WITH <v> are proved on the value functions only (C03_value_*), not composed with readCell / decodeCell; inline strings, rich and phonetic runs: oracle only",
+                        "C03_cell / C03_positions are theorems about the hand-written model of Cell::set_attributes / Row::set_attributes; the model is tied to the code through the per-file runs only "
+                        "(model vs spec on every cell and sheetData, spec vs implementation by the oracle), there is no mechanical extraction of the model from the Rust",
+                        "two conjuncts of validCell exclude schema-valid cells on which the code deviates from the spec (proved witnesses, replayed as boundary packages, known findings): a string item with "
+                        "both a plain t and runs (C03_cell_t_and_runs_fails, edge 7) and an inline <t> with blanks at its ends but no xml:space (C03_cell_edge_blanks_fails, edge 9)",
                         "C03_shared_formula is reference-level: that tokenizer and spec scanner cut a formula into the same references, and the master/child bookkeeping (first f of an si is the master), are validated by the oracle only",
                         "style resolution (cellXfs -> numFmt / font / fill) has no model and no theorem: oracle only, three facts per cell (number format, bold, fill)",
                         "charts, drawings, comments, conditional formats, data validations, pivot tables, theme: not compared",
                         "the two corpus files > 1 MB only in the thorough tier"],
-    "technique": "independent XML/OPC/SpreadsheetML decoder executed in Lean on every file (translation validation) + Lean theorems on unescaping, cell values, shared-formula reference translation and col spans",
+    "technique": "independent XML/OPC/SpreadsheetML decoder executed in Lean on every file (translation validation) + Lean theorems on unescaping, cell elements of every type (model reader = spec decoder), positions of rows / cells without r, shared-formula reference translation and col spans",
 }
